@@ -133,6 +133,19 @@ def table_cases(name, tier):
             yield {"a": a, "b": b}
     elif name == "wide-with-neutral":
         yield from wide_special_cases(tier)
+    elif name == "consensus-py":
+        # (not x and P) | (x and Q)  and its dual: complementary guards keep the conjunctive / disjunctive form, so the
+        # two version atoms P, Q sit in different clauses and meet for the first time when the TEXT is parsed again
+        A = [a for a in py_atoms("quick") if not a["rev"]][:: 3 if tier == "quick" else 1]
+        guards = [
+            ({"var": "os_name", "op": "==", "val": "nt", "rev": False, "style": 0}, {"var": "os_name", "op": "!=", "val": "nt", "rev": False, "style": 0}),
+            ({"var": "sys_platform", "op": "in", "val": "linux win32", "rev": False, "style": 0}, {"var": "sys_platform", "op": "not in", "val": "linux win32", "rev": False, "style": 0}),
+        ]
+        for (x, nx), p, q in itertools.product(guards[: 1 if tier == "quick" else 2], A, A):
+            if p["var"] == q["var"]:
+                continue
+            yield {"a": ["and", P(nx), P(p)], "b": ["and", P(x), P(q)]}
+            yield {"a": ["or", P(nx), P(p)], "b": ["or", P(x), P(q)]}
     elif name == "mixed-py-triples":
         # x or (x and y) or x  shapes and merged operands meeting a third atom
         A = [a for a in py_atoms("quick") if not a["rev"]][:: 4 if tier == "quick" else 2]
@@ -185,7 +198,7 @@ def tasks(tier, seed):
     shards = 48 if tier == "quick" else 192
     # slow, straggler-prone shards first
     t = [(MOD, "hyp", (n // shards, seed * 1_000_003 + i, tier)) for i in range(shards)]
-    for name, nsh in (("py-pairs", 32 if tier == "quick" else 64), ("rel-pairs", 4), ("str-triples", 32), ("extra-triples", 16), ("mixed-py-triples", 16), ("wide-with-neutral", 16), ("str-group-pairs", 8)):
+    for name, nsh in (("py-pairs", 32 if tier == "quick" else 64), ("rel-pairs", 4), ("str-triples", 32), ("extra-triples", 16), ("mixed-py-triples", 16), ("wide-with-neutral", 16), ("str-group-pairs", 8), ("consensus-py", 16)):
         for sh in range(nsh):
             t.append((MOD, "tables", (name, tier, sh, nsh)))
     return t
@@ -208,6 +221,11 @@ def strategy(tier):
 def hyp(acc, n, seed, tier):
     mod = sys.modules[MOD]
     harness.run_hypothesis(acc, strategy(tier), lambda c: harness.process(mod, acc, "pair", c, "L2-hyp"), n, seed)
+
+
+def is_known(kind, case):
+    # S4a through markers: V >= lo merged with V < "X.postN" renders as ~=lo (see known_findings.json)
+    return "S4a-post-release-upper-bound" if O.s4a_case(case) else None
 
 
 def evaluate(kind, case, acc):
